@@ -1,5 +1,8 @@
 import NavisModel.Model.Codec
 import NavisModel.Model.Policy
+import NavisModel.Model.IoMeta
+import NavisModel.Model.IoBatch
+import NavisModel.Gen.IoReaders
 import NavisModel.Drv.Proto
 /-! Line protocol for C14: `c14.<cmd> <payload>`; bytes travel as lower-case hex. -/
 namespace Navis.Drv.C14
@@ -82,8 +85,127 @@ def showBatch : Option (List Nat) → String
   | none => "RAISE"
   | some l => "OK " ++ showNats l
 
+
+/-! #### second pass: file selection, `info`, NRRD header, attribute columns -/
+section Ext
+open Navis.IoMeta Navis.IoBatch
+
+def semis (s : String) : List String :=
+  let s := trim s
+  if s.isEmpty then [] else (s.splitOn ";").map trim
+
+def rat? (s : String) : Option Rat :=
+  match (trim s).splitOn "/" with
+  | [n] => do some (mkRat (← n.toInt?) 1)
+  | [n, d] => do
+    let d ← d.toNat?
+    if d == 0 then none else some (mkRat (← n.toInt?) d)
+  | _ => none
+
+def showRat (q : Rat) : String := if q.den == 1 then s!"{q.num}" else s!"{q.num}/{q.den}"
+
+def v3r? (s : String) : Option V3R :=
+  match semis s with
+  | [a, b, c] => do some (← rat? a, ← rat? b, ← rat? c)
+  | _ => none
+
+def showV3R (v : V3R) : String := s!"{showRat v.1};{showRat v.2.1};{showRat v.2.2}"
+
+def limit? (s : String) : Option Limit :=
+  match (trim s).splitOn ":" with
+  | ["none"] => some .none
+  | ["int", n] => do some (.int (← n.toNat?))
+  | ["slice", a, b] => do some (.slice (← a.toNat?) (← b.toNat?))
+  | ["names", l] => some (.names (semis l))
+  | ["names"] => some (.names [])
+  | ["sub", t] => some (.substr t)
+  | _ => none
+
+/-- `pre` = precomputed filter (literals from the current source); `ext:.a;.b` = extension filter -/
+def validOf? (s : String) : Option (String → Bool) :=
+  match (trim s).splitOn ":" with
+  | ["pre"] => some (validPrecomputed Gen.IoReaders.preRejectContains Gen.IoReaders.preRejectEquals Gen.IoReaders.preRejectEndsWith)
+  | ["ext", e] => some (validBase Gen.IoReaders.hiddenPrefix (semis e))
+  | _ => none
+
+def hval? (s : String) : Option Val :=
+  match (trim s).splitOn ":" with
+  | ["int", n] => do some (.int (← n.toInt?))
+  | ["dirs", a, b, c] => do some (.diag (← rat? a, ← rat? b, ← rat? c))
+  | "units" :: l => some (.strs l)
+  | _ => some (.other s)
+
+/-- `key=val;key=val` (keys may contain blanks) -/
+def header? (s : String) : Option Header :=
+  (semis s).mapM fun kv =>
+    match kv.splitOn "=" with
+    | [k, v] => do some (trim k, ← hval? v)
+    | _ => none
+
+def runExt (cmd rest : String) : Option String :=
+  match cmd with
+  -- `select <dir|zip|tar> <pre|ext:.x;.y> <limit> | name,name,…`  →  `AW a,b|SPEC a,b`
+  | "select" => match rest.splitOn "|" with
+    | [hd, names] => match words hd with
+      | [cont, rd, lim] => do
+        let valid ← validOf? rd
+        let limit ← limit? lim
+        let listing := strList names
+        let hidden := fun n => Gen.IoReaders.hiddenPrefix.any (IoBatch.startsWith n)
+        let aw ← match cont with
+          | "dir" => some (selectDirAW valid limit listing)
+          | "zip" => some (selectZipAW hidden valid limit listing)
+          | "tar" => some (selectTarAW hidden valid limit listing)
+          | _ => none
+        pure s!"AW {",".intercalate aw}|SPEC {",".intercalate (selectSpec valid limit listing)}"
+      | _ => none
+    | _ => none
+  -- `info <container> <mesh 0/1> <radius 0/1> <nm a;b;c | ->`
+  | "info" => match words rest with
+    | [cont, mesh, rad, nm] => do
+      let nm ← if nm == "-" then some none else (v3r? nm).map some
+      let i := infoWritten Gen.IoReaders.infoCallPassesAddProps cont (← flag? mesh) nm (← flag? rad)
+      let sc := match scaleOf i with | some v => showV3R v | none => "-"
+      let att := match i.vertexAttrs with
+        | none => "-"
+        | some l => ",".intercalate (l.map fun (a : VAttr) => s!"{a.id}/{a.dtype}/{a.comps}")
+      pure s!"{i.type.getD "-"}|{(datatypeOf i).getD "-"}|{sc}|{if i.transform.isSome then (if offDiagonalZero i then "1" else "0") else "-"}|{att}"
+    | _ => none
+  -- `nrrdhdr <dotprops 0/1> <k> <mags a;b;c> <unit> | old header | attrs`  →  what a reader finds
+  | "nrrdhdr" => match rest.splitOn "|" with
+    | [hd, old, attrs] => match words hd with
+      | [dp, k, mags, unit] => do
+        let x : Geo := ⟨← v3r? mags, unit, ← k.toInt?, ← flag? dp⟩
+        let h := runOps Gen.IoReaders.nrrdWriteOps x (← header? old) (← header? attrs)
+        let (vd, us) := readGeo h
+        let u := match us with | some (a, b, c) => s!"{a};{b};{c}" | none => "-"
+        let kk := match readK h with | some k => toString k | none => "-"
+        pure s!"{showV3R vd}|{u}|{kk}|{",".intercalate (h.map (·.1))}"
+      | _ => none
+    | _ => none
+  -- `cols <id> <comps> | v,v,v`  →  `name=v,v;name=v,v`
+  | "cols" => match rest.splitOn "|" with
+    | [hd, vals] => match words hd with
+      | [id, comps] => do
+        let c ← comps.toNat?
+        if c == 0 then none
+        let cs := attrColumns id c (← natList? vals)
+        pure (";".intercalate (cs.map fun p => s!"{p.1}={showNats p.2}"))
+      | _ => none
+    | _ => none
+  -- `jsonkeys k1,k2,…` (the neuron's `__dict__` keys)  →  keys written | keys that reach the neuron on read
+  | "jsonkeys" =>
+    let d := (strList rest).map fun k => (k, ())
+    let w := jsonWrite Gen.IoReaders.jsonKeepPrivate Gen.IoReaders.jsonPrivatePrefix Gen.IoReaders.jsonIdKey () d
+    let r := jsonRead Gen.IoReaders.jsonReadTables Gen.IoReaders.jsonReadSkipsSetattr w
+    some s!"{",".intercalate (w.map (·.1))}|{",".intercalate (r.map (·.1))}"
+  | _ => none
+
+end Ext
+
 def run (cmd : String) (rest : String) : Option String :=
   match cmd with
+  | "select" | "info" | "nrrdhdr" | "cols" | "jsonkeys" => runExt cmd rest
   -- table → bytes navis should write, and the parent column a reader should give back
   | "enc_skel" => match rest.splitOn "|" with
     | [rad, rows] => do
